@@ -1,5 +1,7 @@
 //! overlay access module (child of `statistics`): exposes crate-private items to the engine-R harness.
 //! Compiled only in the scratch overlay under `--cfg verif_sym`; never part of /repo.
+//! Accessors of private FIELDS are optional (`--cfg verif_acc_*`): if a refactoring renames a field the driver
+//! rebuilds without that accessor and the obligations that need it are skipped (and reported as skipped).
 use super::*;
 
 pub fn try_calculate_pub<Model>(
@@ -24,12 +26,15 @@ where
     })
 }
 
+#[cfg(verif_acc_sigma)]
 pub fn unscaled_sigma<Model: SeparableNonlinearModel>(s: &FitStatistics<Model>) -> OVector<Model::ScalarType, Dyn> {
     s.unscaled_confidence_sigma.clone()
 }
+#[cfg(verif_acc_dof)]
 pub fn degrees_of_freedom<Model: SeparableNonlinearModel>(s: &FitStatistics<Model>) -> usize {
     s.degrees_of_freedom
 }
+#[cfg(verif_acc_counts)]
 pub fn counts<Model: SeparableNonlinearModel>(s: &FitStatistics<Model>) -> (usize, usize) {
     (s.linear_coefficient_count, s.nonlinear_parameter_count)
 }
